@@ -597,6 +597,17 @@ func (e *Env) call(n *ECall) SV {
 	case "emptyseq":
 		// emptyseq(T) : empty, non-nil sequence of element type T given as identifier text
 		efail("emptyseq unsupported")
+	case "hint":
+		// hint(e): always true; only plants the term e in the query so that triggers can fire on it
+		xv := e.ev(n.Args[0])
+		srt := e.sort(xv.Ty)
+		fn := "hint_" + mangle(srt)
+		if !g.zeroFns[fn] {
+			g.zeroFns[fn] = true
+			g.reg.decls = append(g.reg.decls, fmt.Sprintf("(declare-fun %s (%s) Bool)", fn, srt),
+				fmt.Sprintf("(assert (forall ((x %s)) (! (%s x) :pattern ((%s x)))))", srt, fn, fn))
+		}
+		return SV{"(" + fn + " " + xv.T + ")", tBool}
 	case "typeof":
 		xv := e.ev(n.Args[0])
 		return SV{"(itag " + xv.T + ")", tInt}
@@ -647,7 +658,7 @@ func (e *Env) call(n *ECall) SV {
 		args = append(args, v)
 	}
 	rt := g.resolveType(sf.Ret, sf.File, nil)
-	if sf.Body != nil {
+	if sf.Body != nil && !sf.Opaque {
 		if e.depth > 20 {
 			efail("spec function expansion too deep (%s)", n.Fn)
 		}
